@@ -209,6 +209,16 @@ def run(chk):
         # `len < c` / `c > len` reject ; accepted minimum length
         gmin = c if (op == "Lt" and len_first) or (op == "Gt" and not len_first) else (c + 1 if (op == "Le" and len_first) or (op == "Ge" and not len_first) else c)
     fixed = v_cnt[2] if v_cnt is not None and v_cnt[0] == IN else None
+    if gmin is None and fixed is not None and "th" in dir() and "tc" in dir() and "tf" in dir():
+        # no explicit length comparison: the fixed pieces are carved by *checked* operations only (`split_first_chunk`,
+        # `first_chunk`, `split_first`, `get` — each present exactly when the bytes are there, their absence an early return;
+        # that the early return is an error and not a panic is C15 / R3), so the shortest input that gets through is the end
+        # of the last fixed piece
+        unchecked = lambda x: (isinstance(x, tuple) and len(x) == 4 and x[0] == "call" and isinstance(x[1], str) and (names.is_(x[1], "slice::split_at") or names.is_(x[1], "Index::index") or names.is_(x[1], "slice::split_at_unchecked") or x[1].endswith("get_unchecked"))) \
+            or (isinstance(x, tuple) and x and x[0] in ("elem_at", "subslice_at") and layout_root(x[1]) == IN)
+        checked = lambda x: isinstance(x, tuple) and len(x) == 4 and x[0] == "call" and isinstance(x[1], str) and any(names.is_(x[1], n_) for n_ in ("slice::split_first_chunk", "slice::first_chunk", "slice::split_first", "slice::get", "slice::first"))
+        if all(has(t_, checked) and not has(t_, unchecked) for t_ in (th, tc, tf)):
+            gmin = fixed
     chk.ob("R2 reader = writer", "R2|from_slice|guard=37", gmin == 37 and fixed == 37, where(fs), "length guard accepts len >= %s; fixed part = %s" % (gmin, fixed))
     chk.ob("R2 reader = writer", "R2|from_slice|counter big-endian", cnt_order == "be", where(fs), "counter decoded from its 4 bytes in %s order" % (cnt_order or "an unrecognised"))
     ok = v_hash == (IN, 0, 32) and v_flag == (IN, 32, 33) and v_cnt == (IN, 33, 37)
